@@ -392,11 +392,27 @@ REWRITE_OK: Dict[Tuple[str, str], str] = {
 
 def _check_rewrites(P: Program, rep: Report, funcs: List[FuncInfo]) -> None:  # noqa: C901
     n_sites = 0
-    for f in funcs:
+    work: List[Tuple[FuncInfo, frozenset]] = [(f, frozenset()) for f in funcs]
+    done: Set[Tuple[str, frozenset]] = set()
+    while work:
+        f, tparams = work.pop(0)
+        if (f.qualname, tparams) in done:
+            continue
+        done.add((f.qualname, tparams))
         fn = f.node
-        tainted: Set[str] = set()
+        if tparams:
+            # the parameter holds rendered text (a str): resolve type tests on it
+            facts: Dict[str, Any] = {}
+            for p_ in tparams:
+                facts[f"isinstance({p_}, str)"] = True
+                for ty in ("float", "int", "bool", "bytes"):
+                    facts[f"isinstance({p_}, {ty})"] = False
+                facts[f"{p_} is None"] = False
+            fn = render.specialise_facts(f.node, facts)
+        tainted: Set[str] = set(tparams)
         if f.name == "_break_parentheses":
-            _check_scanner(rep, f)
+            if not tparams:
+                _check_scanner(rep, f)
             continue
 
         def is_render_call(c: ast.AST) -> bool:
@@ -418,6 +434,18 @@ def _check_rewrites(P: Program, rep: Report, funcs: List[FuncInfo]) -> None:  # 
                     for t in tg:
                         if isinstance(t, ast.Name):
                             tainted.add(t.id)
+        # rendered text handed to another in-repo function: follow it (the callee's parameter is rendered text)
+        for n in walk_no_nested(fn):
+            if isinstance(n, ast.Call) and not is_render_call(n) and any(tainted_expr(a) for a in list(n.args) + [k.value for k in n.keywords]):
+                for tq in P.resolve_call(f, n)[:3]:
+                    g = P.functions.get(tq)
+                    if g is None or g.name in NAME_FORMATTERS:
+                        continue
+                    params = [p_ for p_ in g.params if p_ not in ("self", "cls")]
+                    tp = {params[i] for i, a in enumerate(n.args) if i < len(params) and tainted_expr(a)}
+                    tp |= {k.arg for k in n.keywords if k.arg in params and tainted_expr(k.value)}
+                    if tp:
+                        work.append((g, frozenset(tp)))
         for n in walk_no_nested(fn):
             desc = None
             if isinstance(n, ast.Call) and isinstance(n.func, ast.Attribute) and tainted_expr(n.func.value):
@@ -639,7 +667,7 @@ def _elided(P: Program, f: FuncInfo, facts: Dict[str, Any]) -> Dict[str, Set[str
     return out
 
 
-def _check_defaults(P: Program, rep: Report, S, built) -> None:  # noqa: C901
+def _check_defaults(P: Program, rep: Report, S, built, pretty: bool = True) -> None:  # noqa: C901
     consumers: Dict[str, List[str]] = {"HROperation": [], "DPValidation": []}
     for f in P.iter_functions():
         if not f.module.name.startswith(("vtlengine.Interpreter", "vtlengine.duckdb_transpiler.Transpiler")):
@@ -662,7 +690,7 @@ def _check_defaults(P: Program, rep: Report, S, built) -> None:  # noqa: C901
         if cname == "HROperation":
             ops = ["hierarchy", "check_hierarchy"]
         for op in ops:
-            facts: Dict[str, Any] = {"self.pretty": True}
+            facts: Dict[str, Any] = {"self.pretty": pretty}
             if op:
                 facts["node.op"] = op
             el = _elided(P, r, facts)
